@@ -34,7 +34,7 @@ MAX_PATHS = 32
 SEQ_LENGTHS = (1, 2, 3)
 REL_TOL = 1e-6
 EXEC_TIMEOUT_S = int(os.environ.get("VERIF_C02_EXEC_TIMEOUT", "60"))
-SMT_TIMEOUT_S = float(os.environ.get("VERIF_SMT_TIMEOUT", "20"))
+SMT_TIMEOUT_S = float(os.environ.get("VERIF_SMT_TIMEOUT", "90"))  # one waveguide law needs ~15 s unloaded: budget sized for a busy 16-core host
 POINT_TIMEOUT_S = int(os.environ.get("VERIF_C02_POINT_TIMEOUT", "20"))
 FN_BOUNDED_BUDGET_S = int(os.environ.get("VERIF_C02_BOUNDED_BUDGET", "120"))
 NF_TIMEOUT_S = int(os.environ.get("VERIF_C02_NF_TIMEOUT", "15"))
